@@ -288,14 +288,132 @@ func runListenerConc(h *common.History, seed uint64) {
 	if !f.isClosed() {
 		flags |= lfSocketLeak
 	}
-	if flags != 0 && os.Getenv("UDPL_DEBUG") != "" {
+	if os.Getenv("UDPL_DEBUG") != "" {
 		for _, e := range s.Log {
 			fmt.Fprintf(os.Stderr, "g%d(%s) %s %s %d\n", e.G, s.Gs[max(e.G, 0)].Name, e.Kind, e.Label, e.K)
 		}
 	}
-	h.Conf = []string{"9", common.I(seed)}
-	h.Ops = [][]string{{common.I(len(s.Log)), common.I(len(accepted)), common.I(len(pending))}}
-	h.Obs = [][]string{{common.I(flags)}}
+	// ---- translate the scheduler log into the events of UdpListener/Conc.v ------------------------------------------
+	name := func(g int) string {
+		if g < 0 || g >= len(s.Gs) {
+			return ""
+		}
+		return s.Gs[g].Name
+	}
+	var evs [][]string
+	emit := func(code, arg int) { evs = append(evs, []string{common.I(code), common.I(arg)}) }
+	inRegion := false // the read loop is inside getConn with connLock held (its deferred Unlock is not logged)
+	queued, addPending, sendSeen := 0, false, false
+	leave := func() {
+		if inRegion {
+			emit(3, 0)
+			inRegion = false
+		}
+	}
+	nextRL := func(from int) *vsched.Event { // the read loop's next logged event
+		for j := from + 1; j < len(s.Log); j++ {
+			if name(s.Log[j].G) == "pkg:Listen#2" && s.Log[j].Kind != "B" {
+				return &s.Log[j]
+			}
+		}
+		return nil
+	}
+	for i, e := range s.Log {
+		gname := name(e.G)
+		switch {
+		case e.Kind == "E" && e.Label == "socket closed":
+			emit(14, 0)
+		case gname == "pkg:Listen#2": // read loop
+			switch {
+			case e.Kind == "L" && e.Label == "getConn#0":
+				leave()
+				known := 1
+				if n := nextRL(i); n != nil && n.Kind == "Y" && n.Label == "getConn#1" {
+					known = 0
+				}
+				emit(0, known)
+				inRegion = true
+			case e.Kind == "Y" && e.Label == "getConn#0":
+				leave() // the previous dispatch has returned
+			case e.Kind == "Y" && e.Label == "getConn#1":
+				emit(1, 0)
+				addPending = true
+			case e.Kind == "C" && e.Label == "getConn#2":
+				// the select decides here (queued, or backlog full); in the second case the code's connWG.Done follows a
+				// moment later (getConn#3) while the model gives the reference back in the same step
+				if sendSeen {
+					sendSeen = false // already emitted ahead of the Accept that received the value directly
+				} else {
+					emit(2, 0)
+					if e.K == 0 {
+						queued++
+					}
+				}
+				addPending = false
+			case e.Kind == "X":
+				leave()
+			}
+		case gname == "lclose":
+			switch {
+			case e.Kind == "Y" && e.Label == "Close#0":
+				// doneOnce.Do: only the first call runs the body; the store follows at once
+				if n := func() bool {
+					for j := i + 1; j < len(s.Log); j++ {
+						if s.Log[j].G == e.G && s.Log[j].Kind != "B" {
+							return s.Log[j].Kind == "Y" && s.Log[j].Label == "Close#1"
+						}
+					}
+					return false
+				}(); n {
+					emit(4, 0)
+				}
+			case e.Kind == "Y" && e.Label == "Close#1":
+				emit(5, 0)
+			case e.Kind == "L" && e.Label == "Close#2":
+				leave()
+				emit(6, 0)
+			case e.Kind == "C" && e.Label == "Close#3" && e.K == 0:
+				emit(7, 0)
+				queued--
+			case e.Kind == "Y" && e.Label == "Close#5":
+				emit(8, 0)
+			case e.Kind == "C" && e.Label == "Close#3" && e.K == 1:
+				emit(9, 0)
+			case e.Kind == "Y" && e.Label == "Close#6":
+				emit(10, 0)
+			case e.Kind == "Y" && e.Label == "Close#7":
+				emit(11, 0)
+			}
+		default: // callers: Accept, Conn.Close (and Conn.Write)
+			switch {
+			case e.Kind == "C" && e.Label == "Accept#0" && e.K == 0:
+				if queued == 0 && addPending && !sendSeen {
+					// a send to a parked receiver hands the value over directly; the receiver may log its event before the
+					// sender logs the select case: the send comes first
+					emit(2, 0)
+					queued++
+					sendSeen = true
+				}
+				emit(12, 0)
+				queued--
+			case e.Kind == "Y" && e.Label == "Close#1" && gname != "lclose":
+				emit(13, 0)
+			case e.Kind == "L" && e.Label == "Close#3":
+				leave()
+				emit(15, 0)
+			}
+		}
+	}
+	leave()
+	nOpen := 0
+	for _, a := range accepted {
+		if !a.closeCalled {
+			nOpen++
+		}
+	}
+	h.Conf = []string{"9", common.I(seed), common.I(backlog)}
+	h.Ops = evs
+	h.Obs = [][]string{{"1", common.B(f.isClosed()), common.I(nOpen), common.B(!listenerCloseCalled)}, {common.I(flags)}}
 	h.Tags = append(h.Tags, "concurrent_listener")
 	if len(accepted) > nacc {
 		h.Tags = append(h.Tags, "accept_during_concurrent_phase")
